@@ -161,7 +161,16 @@ class Reader:
             for i in fn.get('inits', []):
                 if i.get('field') and i.get('e') is not None:
                     nxt = []
+                    e0 = strip_casts(i['e'])
+                    sub = self.facts.functions.get(e0.get('fk')) if e0.get('k') == 'Construct' and e0.get('inrepo') and e0.get('fk') else None
                     for s in states:
+                        if sub is not None and sub.get('body') is not None and depth < self.max_depth and e0.get('ctor') not in ('copy', 'move'):
+                            # member object built by a repo constructor: its fields live under this.<member>
+                            for (vals, s2) in self.evs_args(e0.get('args', []), sub.get('params', []), s, ctx):
+                                for fs in self.run(sub, vals, this + (i['field'],), s2, depth + 1):
+                                    fs.returned, fs.ret = False, None
+                                    nxt.append(fs)
+                            continue
                         for (v, s2) in self.ev(i['e'], s, ctx):
                             s2.fields[this + (i['field'],)] = v
                             nxt.append(s2)
@@ -172,7 +181,7 @@ class Reader:
         for s in states:
             out += self.ex(fn.get('body'), s, ctx)
         for s in out:
-            s.locals, s.alias = saved_locals, saved_alias
+            s.locals, s.alias = dict(saved_locals), dict(saved_alias)
         return out
 
     def symbol(self, name, t=None):
@@ -569,6 +578,8 @@ class Reader:
             if e.get('ctor') in ('copy', 'move') and len(args) == 1:
                 return self.ev(args[0], st, ctx)
             if len(args) == 1 and e['t'].get('c') in ('int', 'fp'):
+                return self.ev(args[0], st, ctx)
+            if e['cls'].startswith('std::atomic<') and len(args) == 1:
                 return self.ev(args[0], st, ctx)
             if e['cls'].startswith('std::basic_string<') and args and strip_casts(args[0]).get('k') == 'Str':
                 return self.ev(args[0], st, ctx)
